@@ -3,10 +3,20 @@ import RsMatterVerif.Generated.Consts
 # Model of the PASE responder and the commissioning window (C02)
 
 Transliteration of
-* `sc/pase.rs`            `Pase::{open_basic_comm_window, close_comm_window, check_comm_window_timeout,
-                           record_pake_failure}`, `SessionEstTimeout` (the single in-progress marker),
+* `sc/pase.rs`            `Pase::{open_basic_comm_window, open_comm_window, close_comm_window,
+                           check_comm_window_timeout, record_pake_failure}`, `SessionEstTimeout`
+                           (the single in-progress marker), `CommWindow::mdns_service`,
 * `sc/pase/responder.rs`  `PaseResponder::{handle, handle_inner, update_session_timeout,
                            handle_pbkdfparamrequest, handle_pasepake1, handle_pasepake3}`,
+* `transport/session.rs`  `ReservedSession::{reserve, complete, drop}`, the capacity of the session
+                           table, which sessions `get_session_for_eviction` may take,
+                           `Session::{rx_timeout_ms, set_peer_session_params}`,
+* `transport.rs`          `decode_packet` (a new unsecured session needs a slot),
+                           `handle_rx_packet` (`NoSpaceSessions` ⇒ `Busy` + eviction; `Duplicate` ⇒
+                           stand-alone ACK, the message never reaches the exchange),
+* `transport/mrp.rs`      `RetransEntry::{backoff_ms, retransmission_timeout_ms}`,
+* `dm/clusters/adm_comm.rs` `handle_open_commissioning_window` / `handle_open_basic_commissioning_window` (PAKE parameter
+                           validation, expiry check, `Busy` as cluster status) on a session that is not a CASE session,
 * `lib.rs`                `Matter::mdns_services` (commissionable record iff a window is present).
 
 One responder task exists per exchange (`tasks`); a task that returns is removed. Time is a `Nat`
@@ -15,9 +25,11 @@ term `Conf pw ctx pA pB` (= `cA = MAC(KcA(w0,w1,pA,pB,TT(ctx)))`): it equals a r
 if passcode class, transcript, and both shares coincide; `Pt` distinguishes a valid prover share
 from the identity / off-curve / unparsable ones `setup_verifier` and the TLV layer refuse.
 
-Not modelled: session-table exhaustion (`ReservedSession::reserve` failing), MRP retransmissions
-(duplicates never reach the handler), the enhanced (verifier-supplied) window, fail-safe arming.
-Import-free apart from the generated constants.
+Abstractions (stated, not hidden): which *individual* session the LRU rule evicts is an input
+(`VClass`, the class of the victim the implementation took) - the model decides *whether* a victim
+exists and takes the first eligible session of that class; `last_use` is not modelled (a session
+used in the very millisecond of the eviction is skipped by the code). Fail-safe arming at Pake3 is
+not modelled. Import-free apart from the generated constants.
 -/
 namespace Pase
 
@@ -25,6 +37,74 @@ def estTimeoutMs : Nat := Consts.paseSessionEstTimeoutSecs * 1000
 def maxFailures : Nat := Consts.maxPakeFailures
 def minWindowSecs : Nat := Consts.minCommWindowTimeoutMins * 60
 def maxWindowSecs : Nat := Consts.maxCommWindowTimeoutMins * 60
+/-- capacity of the session table (`MAX_SESSIONS`, default features) -/
+def maxSessions : Nat := Consts.maxSessions
+/-- `SPAKE2P_VERIFIER_SALT_MIN_LEN ..= SPAKE2P_VERIFIER_SALT_LEN` (`Pase::validate_salt_len`) -/
+def minSaltLen : Nat := Consts.spake2pSaltMinLen
+def maxSaltLen : Nat := Consts.spake2pSaltLen
+/-- `SPAKE2P_ITERATION_COUNT`: what a basic window announces -/
+def builtinIterations : Nat := Consts.spake2pIterationCount
+
+/-- `OpenCommissioningWindow` parameter bounds of the cluster handler (`dm/clusters/adm_comm.rs`) -/
+def admMinIterations : Nat := Consts.admMinPbkdfIterations
+def admMaxIterations : Nat := Consts.admMaxPbkdfIterations
+def admMinSaltLen : Nat := Consts.admMinPakeSaltLen
+def admMaxSaltLen : Nat := Consts.admMaxPakeSaltLen
+def admVerifierLen : Nat := Consts.admPakeVerifierLen
+
+/-! ## MRP timing (`transport/mrp.rs`, `Session::rx_timeout_ms`) -/
+
+/-- `delay = delay * MRP_BACKOFF_BASE.0 / MRP_BACKOFF_BASE.1`, `n` times -/
+def growN : Nat → Nat → Nat
+  | 0, d => d
+  | n + 1, d => growN n (d * Consts.mrpBackoffBaseNum / Consts.mrpBackoffBaseDen)
+
+/-- `RetransEntry::backoff_ms` -/
+def backoffMs (base counter jitter : Nat) : Nat :=
+  let d := growN (counter - Consts.mrpBackoffThreshold) (base * Consts.mrpMarginNum / Consts.mrpMarginDen)
+  d + (d * jitter * Consts.mrpJitterNum) / (Consts.mrpJitterDiv * Consts.mrpJitterDen)
+
+/-- the loop of `RetransEntry::retransmission_timeout_ms`: `fuel` steps left, attempt `counter` -/
+def retransLoop (active idle thresh : Nat) (activeOnly : Bool) : Nat → Nat → Nat → Nat
+  | 0, _, timeout => timeout
+  | fuel + 1, counter, timeout =>
+    let base := if activeOnly || timeout < thresh then active else idle
+    retransLoop active idle thresh activeOnly fuel (counter + 1) (timeout + backoffMs base counter Consts.mrpJitterRandMax)
+
+/-- `RetransEntry::retransmission_timeout_ms`: the whole back-off ladder with maximum jitter -/
+def retransTimeoutMs (active idle thresh : Nat) (activeOnly : Bool) : Nat :=
+  retransLoop active idle thresh activeOnly Consts.mrpMaxTransmissions 0 0
+
+/-- the peer's MRP parameters as stored in the session -/
+structure Mrp where
+  active : Nat
+  idle : Nat
+  thresh : Nat
+deriving Repr, DecidableEq, Inhabited
+
+/-- `mrp::default_peer_mrp_params` for a device that configures neither SAI nor SII -/
+def defaultMrp : Mrp :=
+  { active := Consts.mrpBaseRetryMs, idle := Consts.mrpDefaultIdleMs, thresh := Consts.mrpDefaultActiveThresholdMs }
+
+/-- `Session::set_peer_session_params`: absent or zero values are ignored -/
+def applyParams (m : Mrp) (sai sii sat : Option Nat) : Mrp :=
+  let m := match sai with | some v => if v > 0 then { m with active := v } else m | none => m
+  let m := match sii with | some v => if v > 0 then { m with idle := v } else m | none => m
+  match sat with | some v => if v > 0 then { m with thresh := v } else m | none => m
+
+/-- the device's own active interval: `dev_det().sai.unwrap_or(MRP_BASE_RETRY_INTERVAL_MS)`, SAI unset -/
+def localActiveMs : Nat := Consts.mrpBaseRetryMs
+
+/-- `Session::rx_timeout_ms` (UDP): how long an exchange waits for the peer's next message -/
+def rxTimeoutMs (m : Mrp) (localActive : Nat) : Nat :=
+  retransTimeoutMs m.active m.idle m.thresh false + Consts.mrpExpectedProcessingMs +
+    retransTimeoutMs localActive localActive 0 true
+
+/-- upper bound of the time the responder's own answer can stay unacknowledged (its `send_with` loop
+ends, successfully or with `TxTimeout`, within the whole ladder paced by the peer's active interval) -/
+def sendLadderMs (m : Mrp) : Nat := retransTimeoutMs m.active m.active 0 true
+
+/-! ## Handshake data -/
 
 /-- the prover's share `pA` as the responder sees it -/
 inductive Pt
@@ -52,10 +132,13 @@ inductive CA
   | malformed
 deriving Repr, DecidableEq, Inhabited
 
+/-- the PBKDFParamRequest: well-formed (optionally advertising MRP session parameters), or refused -/
 inductive Req
   | good
   | malformed
   | passcodeIdNonZero
+  /-- well-formed, with `session_parameters` (SAI, SII, SAT) -/
+  | params (sai sii sat : Option Nat)
 deriving Repr, DecidableEq, Inhabited
 
 structure Window where
@@ -65,6 +148,12 @@ structure Window where
   pw : Nat
   expiry : Nat
   failures : Nat
+  /-- opened with a caller-supplied verifier (`comm_window_type() == Enhanced`) -/
+  enhanced : Bool := false
+  /-- what PBKDFParamResponse announces -/
+  iterations : Nat := 0
+  saltLen : Nat := 0
+  discriminator : Nat := 0
 deriving Repr, DecidableEq, Inhabited
 
 structure Marker where
@@ -81,6 +170,10 @@ deriving Repr, DecidableEq, Inhabited
 structure Task where
   exch : Nat
   stage : Stage
+  /-- instant of the responder's last answer: from then on it waits for the peer -/
+  since : Nat := 0
+  /-- the peer's MRP parameters on the unsecured session (pace the receive timeout) -/
+  mrp : Mrp := defaultMrp
 deriving Repr, DecidableEq, Inhabited
 
 /-- an established PASE session; ghost fields record how it came to be -/
@@ -93,45 +186,92 @@ structure Sess where
   sameWindowAtCreation : Bool
 deriving Repr, DecidableEq, Inhabited
 
+/-- one entry of the session table -/
+inductive Slot
+  /-- any other session; `pinned` = it has an active exchange (cannot be evicted) -/
+  | filler (pinned : Bool)
+  /-- the unsecured session carrying the handshake of exchange `x` -/
+  | unsec (x : Nat)
+  /-- the slot `ReservedSession::reserve` took for the handshake of exchange `x` -/
+  | reserved (x : Nat)
+  /-- the completed PASE session of exchange `x` -/
+  | pase (x : Nat)
+deriving Repr, DecidableEq, Inhabited
+
+/-- class of the session the implementation's LRU rule evicted (environment input) -/
+inductive VClass
+  | filler
+  | unsec
+  | pase
+deriving Repr, DecidableEq, Inhabited
+
 structure St where
   now : Nat := 0
   window : Option Window := none
   marker : Option Marker := none
   tasks : List Task := []
+  /-- ghost: every PASE session ever created, in order -/
   sessions : List Sess := []
   /-- source of fresh transcript ids / responder shares (responder random, `pB`) -/
   fresh : Nat := 0
+  /-- the session table -/
+  table : List Slot := []
+  /-- message counters already received per unsecured session: `(exchange, counter)` -/
+  seen : List (Nat × Nat) := []
 deriving Repr, DecidableEq, Inhabited
 
 inductive Op
-  /-- `open_basic_comm_window` with the verifier of passcode class `pw` -/
+  /-- `Matter::open_basic_comm_window` with the verifier of passcode class `pw` -/
   | openWin (pw secs : Nat)
+  /-- `Pase::open_comm_window`: caller-supplied verifier of class `pw`, salt length, iteration count, discriminator -/
+  | openEnh (pw secs saltLen iterations discriminator : Nat)
+  /-- the command `OpenCommissioningWindow` through `AdminCommHandler::handle_open_commissioning_window`
+  (on a session that is not a CASE session); `verifierLen` = length of the PAKEPasscodeVerifier field -/
+  | cmdOpenEnh (pw secs saltLen iterations discriminator verifierLen : Nat)
+  /-- the command `OpenBasicCommissioningWindow` through `AdminCommHandler::handle_open_basic_commissioning_window` -/
+  | cmdOpenBasic (pw secs : Nat)
   /-- `close_comm_window` (RevokeCommissioning) -/
   | revoke
   | tick (ms : Nat)
   /-- the periodic `check_comm_window_timeout` -/
   | poll
-  /-- PBKDFParamRequest opening exchange `x` -/
-  | pbkdf (x : Nat) (r : Req)
+  /-- PBKDFParamRequest opening exchange `x`; `v` = class of the session the eviction took, if one was needed -/
+  | pbkdf (x : Nat) (r : Req) (v : Option VClass)
   | pake1 (x : Nat) (p : Pt)
   | pake3 (x : Nat) (c : CA)
   /-- any other message on exchange `x` (status report, wrong opcode) -/
   | other (x : Nat)
-  /-- the exchange dies under the responder (`recv_fetch` errs: receive timeout, peer gone) -/
+  /-- the exchange dies under the responder for an outside reason (peer closed the session) -/
   | dead (x : Nat)
+  /-- the responder's receive timer of exchange `x` fires (`ErrorCode::RxTimeout`) -/
+  | rxTimeout (x : Nat)
+  /-- `n` other sessions enter the table, each with / without an active exchange -/
+  | fill (n : Nat) (pinned : Bool)
+  /-- the other sessions leave the table -/
+  | unfill
 deriving Repr, DecidableEq, Inhabited
 
 inductive Out
   | none
   | ok
+  | okN (n : Nat)
   | errBusy
   | errInvalidCommand
+  | errConstraint
+  /-- cluster status `PAKEParameterError` -/
+  | errPakeParam
+  /-- cluster status `Busy` -/
+  | errClusterBusy
   | pbkdfResp (ctx : Nat)
   | pake2 (pB : Nat)
   | statusSuccess
   | statusInvalidParameter
   | statusBusy
   | statusSessionNotFound
+  /-- the transport's own `Busy`: no slot for a new unsecured session -/
+  | transportBusy
+  /-- duplicate: stand-alone acknowledgement only -/
+  | ackOnly
   /-- silently dropped -/
   | dropped
 deriving Repr, DecidableEq, Inhabited
@@ -152,7 +292,12 @@ def recordFailure (s : St) : St :=
     else { s with window := some { w with failures := f } }
   | none => s
 
-def removeTask (s : St) (x : Nat) : St := { s with tasks := s.tasks.filter (·.exch != x) }
+/-- `ReservedSession::drop` of a reservation that was not completed: the slot is removed -/
+def release (tbl : List Slot) (x : Nat) : List Slot := tbl.filter (· != .reserved x)
+
+/-- the task of exchange `x` returns: it is gone, and with it its (uncompleted) reserved slot -/
+def removeTask (s : St) (x : Nat) : St :=
+  { s with tasks := s.tasks.filter (·.exch != x), table := release s.table x }
 def setTask (s : St) (t : Task) : St := { s with tasks := t :: s.tasks.filter (·.exch != t.exch) }
 def findTask (s : St) (x : Nat) : Option Task := s.tasks.find? (·.exch == x)
 
@@ -177,16 +322,135 @@ def windowOpenNow (s : St) : Bool :=
   | some w => s.now ≤ w.expiry
   | none => false
 
+/-! ## The session table -/
+
+/-- `get_session_for_eviction` takes only sessions that are not reserved and have no active exchange;
+the unsecured session of a live handshake has one, and so has the one of exchange `cur`, whose
+responder task is just starting (it has no entry in `tasks` yet) -/
+def eligible (s : St) (cur : Option Nat) : Slot → Bool
+  | .filler p => !p
+  | .unsec x => (findTask s x).isNone && cur != some x
+  | .reserved _ => false
+  | .pase _ => true
+
+def notFiller : Slot → Bool
+  | .filler _ => false
+  | _ => true
+
+def classOf : Slot → Option VClass
+  | .filler _ => some .filler
+  | .unsec _ => some .unsec
+  | .reserved _ => none
+  | .pase _ => some .pase
+
+/-- the session that is evicted: the first eligible one of the class the implementation took, else
+the first eligible one; `none` = every session is reserved or has an active exchange -/
+def evictPick (s : St) (cur : Option Nat) (v : Option VClass) : Option Slot :=
+  let pref := match v with
+    | some c => s.table.find? (fun sl => eligible s cur sl && classOf sl == some c)
+    | none => none
+  match pref with
+  | some sl => some sl
+  | none => s.table.find? (eligible s cur)
+
+/-- the session `sl` leaves the table (`Sessions::remove`; entries of one class and exchange are
+interchangeable, the first is taken); an unsecured session takes its receive-counter state with it -/
+def removeSlot (s : St) (sl : Slot) : St :=
+  { s with table := s.table.erase sl,
+           seen := match sl with
+             | .unsec x => s.seen.filter (·.1 != x)
+             | _ => s.seen }
+
+/-- `write_evict_some_session_packet`: evict one session if any may be taken -/
+def evictOne (s : St) (v : Option VClass) : St :=
+  match evictPick s none v with
+  | some sl => removeSlot s sl
+  | none => s
+
+/-- `Sessions::add` as used by `decode_packet` / `ReservedSession::reserve_now`: `none` = `NoSpaceSessions` -/
+def addSlot (s : St) (sl : Slot) : Option St :=
+  if s.table.length < maxSessions then some { s with table := s.table ++ [sl] } else none
+
+/-- `ReservedSession::reserve`: take a slot; when the table is full evict one session and try again -/
+def reserve (s : St) (x : Nat) (v : Option VClass) : Option St :=
+  match addSlot s (.reserved x) with
+  | some s' => some s'
+  | none =>
+    match evictPick s (some x) v with
+    | some sl => addSlot (removeSlot s sl) (.reserved x)
+    | none => none
+
+/-- `ReservedSession::complete` + `drop`: the reserved slot becomes the PASE session, in place -/
+def complete (tbl : List Slot) (x : Nat) : List Slot :=
+  tbl.map (fun sl => if sl == .reserved x then .pase x else sl)
+
+def reqParams (t : Mrp) : Req → Mrp
+  | .params sai sii sat => applyParams t sai sii sat
+  | _ => t
+
+def reqGood : Req → Bool
+  | .good => true
+  | .params _ _ _ => true
+  | _ => false
+
+/-- the responder task on a fresh exchange `x` whose PBKDFParamRequest was accepted by the transport:
+`handle_inner` from `ReservedSession::reserve` up to the first `recv_fetch` -/
+def pbkdfNew (s : St) (x : Nat) (r : Req) (v : Option VClass) : St × Out :=
+  match reserve s x v with
+  | none => (recordFailure s, .none)   -- `reserve(..).await?` ⇒ `Err` ⇒ `handle` charges a failure
+  | some s =>
+    let (s, st) := updateSessionTimeout s x true
+    match st with
+    | some o => ({ s with table := release s.table x }, o)
+    | none =>
+      let s := checkWindowTimeout s
+      match s.window with
+      | none => ({ s with marker := none, table := release s.table x }, .dropped)
+      | some _ =>
+        if reqGood r then
+          let ctx := s.fresh
+          (setTask { s with fresh := s.fresh + 1 }
+            { exch := x, stage := .waitPake1 ctx, since := s.now, mrp := reqParams defaultMrp r }, .pbkdfResp ctx)
+        else (recordFailure { s with table := release s.table x }, .none)
+
+/-- `Pase::open_basic_comm_window` (as called by `Matter::open_basic_comm_window`: built-in iteration
+count, a fresh 32-byte salt) -/
+def openWinCore (s : St) (pw secs : Nat) : St × Out :=
+  if s.window.isSome then (s, .errBusy)
+  else if secs < minWindowSecs || secs > maxWindowSecs then (s, .errInvalidCommand)
+  else ({ s with window := some { id := s.fresh, pw := pw, expiry := s.now + secs * 1000, failures := 0,
+                                  enhanced := false, iterations := builtinIterations, saltLen := maxSaltLen },
+                 fresh := s.fresh + 1 }, .ok)
+
+/-- `Pase::open_comm_window` -/
+def openEnhCore (s : St) (pw secs saltLen iterations discriminator : Nat) : St × Out :=
+  if s.window.isSome then (s, .errBusy)
+  else if secs < minWindowSecs || secs > maxWindowSecs then (s, .errInvalidCommand)
+  else if saltLen < minSaltLen || saltLen > maxSaltLen then (s, .errConstraint)
+  else ({ s with window := some { id := s.fresh, pw := pw, expiry := s.now + secs * 1000, failures := 0,
+                                  enhanced := true, iterations := iterations, saltLen := saltLen,
+                                  discriminator := discriminator },
+                 fresh := s.fresh + 1 }, .ok)
+
 def step (s : St) : Op → St × Out
-  | .openWin pw secs =>
-    if s.window.isSome then (s, .errBusy)
-    else if secs < minWindowSecs || secs > maxWindowSecs then (s, .errInvalidCommand)
-    else ({ s with window := some { id := s.fresh, pw := pw, expiry := s.now + secs * 1000, failures := 0 },
-                   fresh := s.fresh + 1 }, .ok)
+  | .openWin pw secs => openWinCore s pw secs
+  | .openEnh pw secs saltLen iterations discriminator => openEnhCore s pw secs saltLen iterations discriminator
+  | .cmdOpenEnh pw secs saltLen iterations discriminator verifierLen =>
+    -- the PAKE parameters are validated up front (`PAKEParameterError`)
+    if iterations < admMinIterations || iterations > admMaxIterations then (s, .errPakeParam)
+    else if saltLen < admMinSaltLen || saltLen > admMaxSaltLen then (s, .errPakeParam)
+    else if verifierLen != admVerifierLen then (s, .errPakeParam)
+    else
+      -- an expired window is closed first, then `Pase::open_comm_window`; `Busy` becomes the cluster status
+      let r := openEnhCore (checkWindowTimeout s) pw secs saltLen iterations discriminator
+      (r.1, if r.2 = .errBusy then .errClusterBusy else r.2)
+  | .cmdOpenBasic pw secs =>
+    let r := openWinCore (checkWindowTimeout s) pw secs
+    (r.1, if r.2 = .errBusy then .errClusterBusy else r.2)
   | .revoke => ({ s with window := none }, .ok)
   | .tick ms => ({ s with now := s.now + ms }, .none)
   | .poll => (checkWindowTimeout s, .none)
-  | .pbkdf x r =>
+  | .pbkdf x r v =>
     match findTask s x with
     | some _ =>
       -- a PBKDFParamRequest where Pake1 / Pake3 is expected: handled like any other wrong message
@@ -195,19 +459,12 @@ def step (s : St) : Op → St × Out
       | some o => (removeTask s x, o)
       | none => (failTask s x, .statusInvalidParameter)
     | none =>
-      let (s, st) := updateSessionTimeout s x true
-      match st with
-      | some o => (s, o)
+      -- `decode_packet`: the new unsecured session needs a slot of its own
+      match addSlot s (.unsec x) with
       | none =>
-        let s := checkWindowTimeout s
-        match s.window with
-        | none => ({ s with marker := none }, .dropped)
-        | some _ =>
-          match r with
-          | .good =>
-            let ctx := s.fresh
-            (setTask { s with fresh := s.fresh + 1 } { exch := x, stage := .waitPake1 ctx }, .pbkdfResp ctx)
-          | _ => (recordFailure s, .none)
+        -- `NoSpaceSessions`: `Busy` is sent, one session is evicted if possible, the message is not processed
+        (evictOne s v, .transportBusy)
+      | some s => pbkdfNew s x r v
   | .pake1 x p =>
     match findTask s x with
     | none => (s, .none)
@@ -228,7 +485,8 @@ def step (s : St) : Op → St × Out
             | .valid a =>
               let pB := s.fresh
               let exp : Conf := { pw := w.pw, ctx := ctx, pA := a, pB := pB }
-              (setTask { s with fresh := s.fresh + 1 } { exch := x, stage := .waitPake3 exp w.id }, .pake2 pB)
+              (setTask { s with fresh := s.fresh + 1 }
+                { exch := x, stage := .waitPake3 exp w.id, since := s.now, mrp := t.mrp }, .pake2 pB)
             | _ => (failTask s x, .none)   -- `setup_verifier`: invalid prover share
   | .pake3 x c =>
     match findTask s x with
@@ -252,7 +510,7 @@ def step (s : St) : Op → St × Out
             -- `Spake2P::verify` succeeded: the session is created and completed
             let sess : Sess := { exch := x, conf := exp, windowOpenAtCreation := windowOpenNow s,
                                  sameWindowAtCreation := sameWindow }
-            let s := { s with sessions := s.sessions ++ [sess] }
+            let s := { s with sessions := s.sessions ++ [sess], table := complete s.table x }
             (removeTask { s with marker := none } x, .statusSuccess)
           else (failTask { s with marker := none } x, .statusInvalidParameter)
   | .other x =>
@@ -267,12 +525,73 @@ def step (s : St) : Op → St × Out
     match findTask s x with
     | none => (s, .none)
     | some _ => (failTask s x, .none)
+  | .rxTimeout x =>
+    match findTask s x with
+    | none => (s, .none)
+    | some t =>
+      -- the timer is armed (for `rx_timeout_ms`) when the responder starts waiting, not before its last answer
+      if s.now ≥ t.since + rxTimeoutMs t.mrp localActiveMs then (failTask s x, .none) else (s, .none)
+  | .fill n pinned =>
+    let k := min n (maxSessions - s.table.length)
+    ({ s with table := s.table ++ List.replicate k (.filler pinned) }, .okN k)
+  | .unfill =>
+    ({ s with table := s.table.filter notFiller }, .ok)
 
 def run (s : St) : List Op → St
   | [] => s
   | o :: os => run (step s o).1 os
 
+/-! ## Message delivery: duplicates never reach the responder -/
+
+/-- the exchange a handshake message belongs to -/
+def opExch : Op → Option Nat
+  | .pbkdf x _ _ => some x
+  | .pake1 x _ => some x
+  | .pake3 x _ => some x
+  | .other x => some x
+  | _ => none
+
+def hasUnsec (s : St) (x : Nat) : Bool := s.table.contains (.unsec x)
+
+def isPbkdf : Op → Bool
+  | .pbkdf _ _ _ => true
+  | _ => false
+
+/-- a datagram carrying handshake message `op` with message counter `ctr` arrives
+(`decode_packet` + `handle_rx_packet`): a counter the unsecured session has already seen is a
+`Duplicate` - acknowledged, not processed; without a session only a PBKDFParamRequest is looked at -/
+def deliver (s : St) (ctr : Nat) (op : Op) : St × Out :=
+  match opExch op with
+  | none => step s op
+  | some x =>
+    if hasUnsec s x then
+      if s.seen.contains (x, ctr) then (s, .ackOnly)
+      else
+        let r := step s op
+        ({ r.1 with seen := (x, ctr) :: r.1.seen }, r.2)
+    else if isPbkdf op then
+      let r := step s op
+      (if hasUnsec r.1 x then { r.1 with seen := (x, ctr) :: r.1.seen } else r.1, r.2)
+    else (s, .none)
+
+/-- an event of a history: an environment / API operation, or the arrival of a datagram -/
+inductive Ev
+  | op (o : Op)
+  | msg (ctr : Nat) (o : Op)
+deriving Repr, DecidableEq, Inhabited
+
+def stepEv (s : St) : Ev → St × Out
+  | .op o => step s o
+  | .msg c o => deliver s c o
+
+def runEv (s : St) : List Ev → St
+  | [] => s
+  | e :: es => runEv (stepEv s e).1 es
+
 /-- `Matter::mdns_services`: the commissionable record is published iff a window is present -/
 def advertised (s : St) : Bool := s.window.isSome
+
+/-- `CommWindow::mdns_service`: what the record says - `(discriminator, enhanced)` -/
+def advertisedAs (s : St) : Option (Nat × Bool) := s.window.map (fun w => (w.discriminator, w.enhanced))
 
 end Pase
